@@ -248,6 +248,24 @@ pub open spec fn conn_reason_or_closed(c: Cell<ConnectionStopReason>) -> Connect
         !old(control).closed@ ==> final(control).sent@.len() == old(control).sent@.len() + 1 && final(control).sent@.last() is AllocateLink,
 //@@ end
 
+pub enum SessionControl3 { AllocateIncomingLink { link_name: String, link_relay: LinkRelayIn, input_handle: InputHandleS, responder: Responder<Result<OutputHandle, AllocLinkError>> }, Other(ErrRest) }
+#[verifier::external_body]
+pub struct InputHandleS { _p: u8 }
+//@@ fn file=fe2o3-amqp/src/acceptor/session.rs name=allocate_incoming_link
+//@@ param control : &mut ControlTx<SessionControl3>
+//@@ param link_relay : LinkRelayIn
+//@@ param input_handle : InputHandleS
+//@@ param session_stop_reason : &Cell<SessionStopReason>
+//@@ subst `SessionControl::AllocateIncomingLink` => `SessionControl3::AllocateIncomingLink` rule=R11
+//@@ subst `let reason = || match session_stop_reason.get() { __E1 };` => `let reason = || -> (o: SessionStopReason) ensures o == sess_reason_or_ended(*session_stop_reason) { match session_stop_reason.get() { __E1 } };` rule=optional-R18
+//@@ subst `.map_err(|_v0| AllocLinkError::SessionStopped(reason()))` => `.map_err(|_v0| -> (o: AllocLinkError) ensures o == AllocLinkError::SessionStopped(sess_reason_or_ended(*session_stop_reason)) { AllocLinkError::SessionStopped(reason()) })` rule=optional-R18
+//@@ subst `.map_err(|_v1| AllocLinkError::SessionStopped(reason()))` => `.map_err(|_v1| -> (o: AllocLinkError) ensures o == AllocLinkError::SessionStopped(sess_reason_or_ended(*session_stop_reason)) { AllocLinkError::SessionStopped(reason()) })` rule=optional-R18
+//@@ spec
+    ensures
+        old(control).closed@ ==> r == Err::<OutputHandle, AllocLinkError>(AllocLinkError::SessionStopped(sess_reason_or_ended(*session_stop_reason))),     // [C14.attach.stopped-session-says-why] (listener) accepting a link on a session that has stopped fails with SessionStopped carrying the published reason
+        !old(control).closed@ ==> final(control).sent@.len() == old(control).sent@.len() + 1 && final(control).sent@.last() is AllocateIncomingLink,
+//@@ end
+
 impl ConnectionHandle2 {
 //@@ fn file=fe2o3-amqp/src/connection/mod.rs impl=`impl<R> ConnectionHandle<R>` name=allocate_session
 //@@ param tx : SessionTx
